@@ -114,8 +114,8 @@ async fn startup_udp<const N: usize>(config: &ServerConfig<SslConfig>, user_mana
                         let mut dst = BytesMut::new();
                         if let Err(e) = SessionCodec::encode(&codec, (content, peer_addr, session), &mut dst) {
                             error!("[udp] encode failed; error={e}")
-                        } else {
-                            inbound.send_to(&dst, client_addr).await?;
+                        } else if let Err(e) = inbound.send_to(&dst, client_addr).await {
+                            error!("[udp] send to client failed; client={client_addr}, error={e}");
                         }
                     } else {
                         trace!("[udp] p_s_c channel closed");
@@ -130,12 +130,27 @@ async fn startup_udp<const N: usize>(config: &ServerConfig<SslConfig>, user_mana
                             match SessionCodec::<N>::decode(&codec, &mut src) {
                                 Ok(Some((content, peer_addr, session))) => {
                                     let key = session.client_session_id;
+                                    // one association that has ended, or one socket that cannot be created, must not
+                                    // take the datagram service down for every other client
+                                    if net_map.get(&key).is_some_and(|assoc| assoc.task.is_finished()) {
+                                        net_map.remove(&key);
+                                    }
                                     if let Some(assoc) = net_map.get_mut(&key) {
-                                        assoc.try_send((content, peer_addr, session)).await?
+                                        if let Err(e) = assoc.try_send((content, peer_addr, session)).await {
+                                            error!("[udp] association closed; client={client_addr}, error={e}");
+                                            net_map.remove(&key);
+                                        }
                                     } else {
-                                        let assoc = UdpAssociateContext::create(&session, client_addr, tx.clone()).await?;
-                                        assoc.try_send((content, peer_addr, session)).await?;
-                                        net_map.insert(key, assoc);
+                                        match UdpAssociateContext::create(&session, client_addr, tx.clone()).await {
+                                            Ok(assoc) => {
+                                                if let Err(e) = assoc.try_send((content, peer_addr, session)).await {
+                                                    error!("[udp] association closed; client={client_addr}, error={e}");
+                                                } else {
+                                                    net_map.insert(key, assoc);
+                                                }
+                                            }
+                                            Err(e) => error!("[udp] create association failed; client={client_addr}, error={e}"),
+                                        }
                                     }
                                 }
                                 Ok(None) => {}
